@@ -128,12 +128,14 @@ def excel_rows(source_path, sheet=1):
     assert sheet >= 1, "sheet=%r" % sheet
 
     location = errors.Location(source_path, has_cell=True)
+    # Ensure the file can be accessed at all, otherwise fail with an OSError.
+    with io.open(source_path, "rb"):
+        pass
     try:
         book = xlrd.open_workbook(source_path)
-    except EnvironmentError:
-        raise
     except Exception as error:
-        # Damaged files can cause all sorts of errors deep inside of xlrd, for example zlib.error or KeyError.
+        # Damaged files can cause all sorts of errors deep inside of xlrd, for example zlib.error, KeyError or
+        # even OSError (when attempting to seek to a broken offset).
         raise errors.DataFormatError("cannot read Excel file: %s" % error, location)
     try:
         with book:
